@@ -21,7 +21,10 @@
  *      range would demand more than the statement.  Such configurations are therefore counted and
  *      listed as an observation ("amplified"), not raised as violations.  The wrap-around concern
  *      that motivated the range is covered by the 64-bit sum of item 2;
- *   4. nothing is written outside the block (library and harness are built with ASan);
+ *   4. nothing is written outside the block: the block the library mallocs is given 4096-byte
+ *      guard zones whose pattern is compared after the call (deterministic, via --wrap=malloc),
+ *      and library and harness are built with ASan for anything further out; the allocation must
+ *      be at least as long as *n_values announces;
  *   5. pixman_image_set_filter (SEPARABLE_CONVOLUTION) accepts the block with n_values;
  *   6. a constant 4x4 a8r8g8b8 image (repeat NORMAL) sampled through the filter at the centre of
  *      EVERY phase of the enumerated axis gives exactly the constant back (the other axis being a
@@ -37,7 +40,7 @@
  *   c18-zero-total-phase-nan         a phase carrying the exact signature of the 0/0 normalisation
  *                                    (all taps INT_MIN, first tap INT_MIN+65536 or 65536) (finding 6b)
  *   c18-phase-sum-not-one            a phase does not sum to 65536 (without that signature)
- *   c18-write-outside-block          ASan report during the call (not IMPULSE/IMPULSE)
+ *   c18-write-outside-block          guard zone modified or ASan report during the call (not IMPULSE/IMPULSE)
  *   c18-n-values / c18-header / c18-width-below-support / c18-null-block
  *   c18-set-filter-rejected / c18-constant-not-preserved / c18-table-depends-on-other-axis
  */
@@ -55,6 +58,38 @@ static const int kwidth[NK] = { 0, 1, 2, 4, 5, 4, 6, 8 };
 #define CONST_PIXEL 0xff9c4b01u
 
 typedef struct { int rk, sk, bits; pixman_fixed_t scale; } axcfg;
+
+/* ---- guard zones around the block the library allocates ------------------------------------
+ * The check is linked with -Wl,--wrap=malloc: every malloc() of the library and of this file comes
+ * here.  While g_guard_on is set (only around the create call, which allocates exactly one block)
+ * the block gets GUARD bytes of 0xA5 on both sides.  A write of the library outside its block but
+ * inside a guard zone is then detected deterministically by comparing the pattern afterwards
+ * (ASan does not see it: for ASan the zones are part of the allocation); a write further out is
+ * caught by ASan itself.  Blocks handed out this way are released with blk_free(). */
+#define GUARD 4096
+void *__real_malloc(size_t n);
+static int g_guard_on, g_guard_count;
+static unsigned char *g_guard_base;
+static size_t g_guard_n;
+void *__wrap_malloc(size_t n)
+{
+    if (!g_guard_on) return __real_malloc(n);
+    unsigned char *b = __real_malloc(n + 2 * GUARD);
+    if (!b) return NULL;
+    memset(b, 0xA5, GUARD); memset(b + GUARD + n, 0xA5, GUARD);
+    g_guard_base = b; g_guard_n = n; g_guard_count++;
+    return b + GUARD;
+}
+static void blk_free(pixman_fixed_t *params) { if (params) free((unsigned char *)params - GUARD); }
+/* returns 0 if intact; else sets *where = byte offset relative to the block start (negative: before) / end (>= 0: past the end) */
+static int guard_damaged(long *before_off, long *after_off, int *nbytes)
+{
+    int n = 0; *before_off = 0; *after_off = -1;
+    for (long i = 0; i < GUARD; i++) if (g_guard_base[i] != 0xA5) { if (!n || i - GUARD < *before_off) *before_off = i - GUARD; n++; }
+    for (long i = 0; i < GUARD; i++) if (g_guard_base[GUARD + g_guard_n + i] != 0xA5) { if (*after_off < 0) *after_off = i; n++; }
+    *nbytes = n;
+    return n;
+}
 
 /* ---- alphabets ---- */
 #define MAXSCALES 2200
@@ -162,14 +197,29 @@ static pixman_fixed_t *make_and_check(const axcfg *cx, const axcfg *cy, int enum
     char bx[160], by[160];
     int n = -12345;
     vf_asan_flag = 0;
+    g_guard_count = 0; g_guard_base = NULL; g_guard_on = 1;
     pixman_fixed_t *params = pixman_filter_create_separable_convolution(&n, cx->scale, cy->scale, cx->rk, cy->rk, cx->sk, cy->sk, cx->bits, cy->bits);
+    g_guard_on = 0;
     vf_count_libcalls(1);
     int asan = vf_asan_flag;
     vf_asan_flag = 0;   /* we classify it ourselves below */
+    char over[300] = "";
+    if (params && (g_guard_count != 1 || (unsigned char *)params != g_guard_base + GUARD)) {
+        vf_harderr("create allocated %d blocks / returned a pointer that is not the allocated block: harness assumption broken", g_guard_count);
+        return NULL;
+    }
+    if (params) {
+        long b, a; int nb;
+        if (guard_damaged(&b, &a, &nb))
+            snprintf(over, sizeof over, "%d byte(s) OUTSIDE the %zu-byte block modified (first at %s%ld)", nb, g_guard_n,
+                     a >= 0 ? "end+" : "start", a >= 0 ? a : b);
+    }
+    if (asan) snprintf(over + strlen(over), sizeof over - strlen(over), "%sAddressSanitizer: %s", over[0] ? "; " : "", vf_asan_desc);
+    asan = over[0] != 0;
     if (vf_verbose) printf("   create(x: %s | y: %s) -> %p n=%d asan=%d\n", cfg_str(cx, bx, sizeof bx), cfg_str(cy, by, sizeof by), (void *)params, n, asan);
     if (!params) { vf_violation("c18-null-block", "%s: NULL returned (n=%d) for x[%s] y[%s]", desc, n, cfg_str(cx, bx, sizeof bx), cfg_str(cy, by, sizeof by)); return NULL; }
     /* header (the first four values exist whenever a block is returned: n >= 4 is checked first) */
-    if (n < 4) { vf_violation("c18-n-values", "%s: n_values=%d < 4", desc, n); free(params); return NULL; }
+    if (n < 4) { vf_violation("c18-n-values", "%s: n_values=%d < 4", desc, n); blk_free(params); return NULL; }
     int w = pixman_fixed_to_int(params[0]), h = pixman_fixed_to_int(params[1]);
     if (vf_verbose) printf("   header: %08x %08x %08x %08x\n", (unsigned)params[0], (unsigned)params[1], (unsigned)params[2], (unsigned)params[3]);
     const axcfg *cc[2] = { cx, cy }; int dim[2] = { w, h };
@@ -180,33 +230,37 @@ static pixman_fixed_t *make_and_check(const axcfg *cx, const axcfg *cy, int enum
             vf_violation(ii ? "c18-impulse-impulse-zero-width" : "c18-zero-width-table",
                          "%s: %s = %d for axis %c [%s]: the table has no taps, no phase can sum to 65536 (n_values=%d)%s%s", desc,
                          a ? "height" : "width", dim[a], "xy"[a], cfg_str(cc[a], bx, sizeof bx), n,
-                         asan ? "; AddressSanitizer: " : "", asan ? vf_asan_desc : "");
-            free(params); return NULL;
+                         asan ? "; " : "", over);
+            blk_free(params); return NULL;
         }
     }
     if (asan) {
         note_fail(K_ASAN, enum_axis == 1, enum_axis == 1 ? cy : cx);
-        vf_violation("c18-write-outside-block", "%s: AddressSanitizer %s during create for x[%s] y[%s]", desc, vf_asan_desc,
+        vf_violation("c18-write-outside-block", "%s: %s during create for x[%s] y[%s]", desc, over,
                      cfg_str(cx, bx, sizeof bx), cfg_str(cy, by, sizeof by));
-        free(params); return NULL;
+        blk_free(params); return NULL;
     }
     if (params[0] != pixman_int_to_fixed(w) || params[1] != pixman_int_to_fixed(h) ||
         params[2] != pixman_int_to_fixed(cx->bits) || params[3] != pixman_int_to_fixed(cy->bits)) {
         vf_violation("c18-header", "%s: header %08x %08x %08x %08x, expected integer width/height and phase bits %d/%d as 16.16", desc,
                      (unsigned)params[0], (unsigned)params[1], (unsigned)params[2], (unsigned)params[3], cx->bits, cy->bits);
-        free(params); return NULL;
+        blk_free(params); return NULL;
+    }
+    if ((size_t)n * sizeof(pixman_fixed_t) > g_guard_n) {
+        vf_violation("c18-n-values", "%s: n_values=%d announces %zu bytes but the block allocated is %zu bytes", desc, n, (size_t)n * 4, g_guard_n);
+        blk_free(params); return NULL;
     }
     int64_t expect_n = 4 + (int64_t)w * (1 << cx->bits) + (int64_t)h * (1 << cy->bits);
     if (n != expect_n) {
         vf_violation("c18-n-values", "%s: n_values=%d, header says 4 + %d*2^%d + %d*2^%d = %lld", desc, n, w, cx->bits, h, cy->bits, (long long)expect_n);
-        free(params); return NULL;
+        blk_free(params); return NULL;
     }
     for (int a = 0; a < 2; a++) {
         int need = support_ceil(cc[a]);
         if (dim[a] < need) {
             vf_violation("c18-width-below-support", "%s: axis %c [%s] has %d taps but the filter support is %d + %.6g*%d (needs %d)", desc, "xy"[a],
                          cfg_str(cc[a], bx, sizeof bx), dim[a], kwidth[cc[a]->rk], cc[a]->scale / 65536.0, kwidth[cc[a]->sk], need);
-            free(params); return NULL;
+            blk_free(params); return NULL;
         }
     }
     /* tables: check the enumerated axis first so that its key is the one reported */
@@ -215,7 +269,7 @@ static pixman_fixed_t *make_and_check(const axcfg *cx, const axcfg *cy, int enum
         int a = order[k];
         const pixman_fixed_t *tab = a == 0 ? params + 4 : params + 4 + (size_t)w * (1 << cx->bits);
         int ampl = 0;
-        if (!check_table(tab, dim[a], cc[a], a, desc, &ampl)) { free(params); return NULL; }
+        if (!check_table(tab, dim[a], cc[a], a, desc, &ampl)) { blk_free(params); return NULL; }
         if (ampl && a == (enum_axis == 1) && pampl) *pampl = 1;
     }
     *pn = n; *pw = w; *ph = h;
@@ -295,7 +349,7 @@ static void axis_case(uint64_t idx, void *ctx)
         /* the fixed identity axis itself is wrong: item 6 would not be exact; report it as such */
         vf_violation("c18-identity-axis", "fixed axis IMPULSE/BOX scale 1 bits 0 gave %d taps, first %d (expected one tap of 65536)", other,
                      params[axis ? 4 : 4 + (size_t)w * (1 << cx->bits)]);
-        free(params); return;
+        blk_free(params); return;
     }
     if (width >= 2) vf_count_nontrivial(1);
     if (!vf_in_confirm) __atomic_add_fetch(&sh->phases, (uint64_t)1 << c.bits, __ATOMIC_RELAXED);
@@ -305,7 +359,7 @@ static void axis_case(uint64_t idx, void *ctx)
                   "xy"[axis], cfg_str(&c, cb, sizeof cb), n, width, 1 << c.bits, params[axis ? 5 : 4], width > 1 ? "," : "", width > 1 ? params[(axis ? 5 : 4) + 1] : 0,
                   width > 2 ? ",..." : "", 1 << c.bits);
     }
-    free(params);
+    blk_free(params);
 }
 
 /* ---- cross grid ---- */
@@ -360,8 +414,8 @@ static void cross_case(uint64_t idx, void *ctx)
                          (w1 == w && !memcmp(px + 4, params + 4, nx * 4)) ? "equals" : "DIFFERS from",
                          (h2 == h && !memcmp(py + 5, params + 4 + nx, ny * 4)) ? "equals" : "DIFFERS from");
     }
-    free(px); free(py);
-    if (vf_failed()) { free(params); return; }
+    blk_free(px); blk_free(py);
+    if (vf_failed()) { blk_free(params); return; }
     vf_outcome(vf_hash64(params, (size_t)n * sizeof params[0], 19));
     /* 2-D image check at every phase pair, when cheap enough and when the bound of the header comment applies */
     uint64_t work = ((uint64_t)w * h) << (cx->bits + cy->bits);
@@ -380,7 +434,7 @@ static void cross_case(uint64_t idx, void *ctx)
     if (!vf_failed() && vf_want_sample() && idx % 7 == 3)
         vf_sample("cross x[%s] y[%s] -> n_values=%d = 4 + %d*%d + %d*%d; both tables equal the single-axis tables; all phases sum to 65536",
                   cfg_str(cx, bx, sizeof bx), cfg_str(cy, by, sizeof by), n, w, 1 << cx->bits, h, 1 << cy->bits);
-    free(params);
+    blk_free(params);
 }
 
 /* ---- report of failing inputs ---- */
@@ -460,7 +514,8 @@ int main(int argc, char **argv)
               "non-trivial = the enumerated table has >= 2 taps per phase (normalisation and error diffusion did work); outcome = hash of the whole block";
     vf_bounds = th ? "all 8x8 kernel pairs x subsample bits 0..8 x 2059 scales (k/256 for k=1..2048, eps, 2eps, 1/4-eps, 1-eps, 1+eps, 16.25, 64), each axis; 24x24 cross grid"
                    : "all 8x8 kernel pairs x subsample bits 0..4 x 71 scales (eps, 2eps, 1/4-eps, 1-eps, 1+eps, 4.5, 8, k/16 for k=1..64), each axis; 12x12 cross grid";
-    vf_assume("AddressSanitizer (library and harness built with clang -fsanitize=address, recover mode, suppress_equal_pcs=0) observes every write outside the malloc'ed block");
+    vf_assume("writes outside the block are observed by 4096-byte pattern guard zones around the library's allocation (--wrap=malloc) and, beyond those, by AddressSanitizer "
+              "(library and harness built with clang -fsanitize=address, recover mode, suppress_equal_pcs=0); a stray write that stores the guard pattern 0xA5 itself would be missed");
     vf_assume("the kernel widths 0,1,2,4,5,4,6,8 used for the support check are the documented ones of pixman-filter.c filters[]");
     vf_assume("negative scales (the library takes fabs) and scale 0 are outside the quantifier 'all positive 16.16 scales' and not enumerated");
     uint64_t naxis = (uint64_t)g_nscales * g_nbits * NK * NK;
